@@ -3,6 +3,12 @@
 // Contracts for package log (comment-only; read by /verif/bin/govc, see /verif/DESIGN.md §2.3).
 package log
 
+//@ func NewLogger
+//@   props C14 C08 C06 C07
+//@   trusted builds a slog logger over the given writer (handler construction): never nil, no effect on modelled state
+//@   modifies nothing
+//@   ensures result != nil
+//@
 //@ func IterationAttr
 //@   props C07 C06
 //@   modifies nothing
